@@ -6,66 +6,9 @@ From SP Require Import Design.Flat Design.Layout Comb.CombModel Comb.CombSpec Ra
 From SP Require Comb.PermProofs Comb.RadixProofs.
 Import ListNotations.
 Open Scope nat_scope.
+Set Default Proof Using "All".
 
-Section F0D.
-Variable fb : flat.
-Hypothesis HF : frag0 fb = true.
-Hypothesis Hq : 0 < f0_q fb.
-
-Local Notation c := (the_crossing fb).
-Local Notation n := (length (fl_design fb)).
-Local Notation q := (f0_q fb).
-Local Notation inst := (f0_instances fb).
-Local Notation ubi := (f0_ubi fb).
-Local Notation en := (f0_enum fb).
-
-(** the unrankers, unwrapped *)
-Definition perm_of (tc : nat) (c0 : Z) : list Z :=
-  match compute_jth_permutation_prefix (Z.of_nat q) (Z.of_nat tc) c0 with Ok p => p | Err _ => [] end.
-Definition combo_of (tc nl : nat) (idx : Z) : list Z :=
-  match compute_jth_combination (Z.of_nat tc) (Z.of_nat nl) idx with Ok p => p | Err _ => [] end.
-
-Lemma perm_of_spec tc c0 : tc <= q -> (0 <= c0 < f0_perms fb tc)%Z ->
-  compute_jth_permutation_prefix (Z.of_nat q) (Z.of_nat tc) c0 = Ok (perm_of tc c0) /\
-  length (perm_of tc c0) = tc /\ injective_below (Z.of_nat q) (perm_of tc c0) /\
-  perm_rank (Z.of_nat q) (perm_of tc c0) = c0.
-Proof.
-  intros Hle Hr. destruct (PermProofs.perm_prefix_bij q tc Hle) as [H1 _].
-  destruct (H1 c0 Hr) as (p & Hp & Hl & Hi & Hk). unfold perm_of. rewrite Hp. auto.
-Qed.
-
-Lemma combo_of_spec tc nl idx : (0 <= idx < Z.of_nat nl ^ Z.of_nat tc)%Z ->
-  compute_jth_combination (Z.of_nat tc) (Z.of_nat nl) idx = Ok (combo_of tc nl idx) /\
-  length (combo_of tc nl idx) = tc /\ Forall (fun d => (0 <= d < Z.of_nat nl)%Z) (combo_of tc nl idx) /\
-  comb_rank (Z.of_nat nl) (combo_of tc nl idx) = idx.
-Proof.
-  intros Hr. destruct nl as [|nl'].
-  - destruct tc as [|tc'].
-    + cbn in Hr. assert (idx = 0%Z) by lia. subst. unfold combo_of. cbn. repeat split; constructor.
-    + rewrite Z.pow_0_l in Hr by lia. lia.
-  - destruct (RadixProofs.comb_bij tc (Z.of_nat (S nl')) ltac:(lia)) as [H1 _].
-    destruct (H1 idx Hr) as (ds & Hc & Hl & Hd & Hk). unfold combo_of. rewrite Hc. auto.
-Qed.
-
-(** * One round *)
 Definition zeros (k : nat) : list Z := repeat 0%Z k.
-
-Definition comp_ok (tc : nat) (cp : comp) : Prop :=
-  let '(c0, c1, c2) := cp in
-  (0 <= c0 < f0_perms fb tc)%Z /\
-  c1 = zeros (if tc =? q then q else tc) /\
-  Forall2 (fun f idx => (0 <= idx < Z.of_nat (nlevels fb f) ^ Z.of_nat tc)%Z) ubi c2.
-
-(** the independent rows of a round *)
-Definition ind_rows (tc : nat) (c2 : list Z) : list (nat * list nat) :=
-  map (fun fi => (fst fi, map Z.to_nat (combo_of tc (nlevels fb (fst fi)) (snd fi)))) (combine ubi c2).
-
-Definition spec_tv (perm : list Z) (rows : list (nat * list nat)) (t : nat) : asg :=
-  nth (Z.to_nat (nth t perm 0%Z)) inst [] ++ map (fun fr => (fst fr, nth t (snd fr) 0)) rows.
-
-Definition spec_tvs (tc : nat) (cp : comp) : list asg :=
-  let '(c0, _, c2) := cp in
-  map (spec_tv (perm_of tc c0) (ind_rows tc c2)) (seq 0 tc).
 
 Lemma enumerate_from_nth {A} (xs : list A) : forall i0 k d,
   k < length xs -> nth k (enumerate_from i0 xs) (0%Z, d) = ((i0 + Z.of_nat k)%Z, nth k xs d).
@@ -112,6 +55,117 @@ Proof. unfold zeros. revert i. induction k; intros [|i]; cbn; auto. Qed.
 
 Lemma zeros_length k : length (zeros k) = k.
 Proof. apply repeat_length. Qed.
+
+Lemma map_fst_combine {A B} (xs : list A) (ys : list B) : length xs = length ys -> map fst (combine xs ys) = xs.
+Proof.
+  revert ys. induction xs as [|x t IH]; intros [|y ys] H; cbn in *; try discriminate; [reflexivity|].
+  f_equal. apply IH. lia.
+Qed.
+
+Lemma find_by_key (rows : list (nat * list nat)) j fr :
+  NoDup (map fst rows) -> nth_error rows j = Some fr ->
+  find (fun x => fst x =? fst fr) rows = Some fr.
+Proof.
+  revert j. induction rows as [|[f row] rest IH]; intros j Hnd Hj; [destruct j; discriminate|].
+  cbn [map fst] in Hnd. inversion Hnd; subst. cbn [find fst]. destruct j; cbn in Hj.
+  - inversion Hj; subst. cbn [fst]. rewrite Nat.eqb_refl. reflexivity.
+  - destruct (f =? fst fr) eqn:E.
+    + apply Nat.eqb_eq in E. exfalso. apply H1. rewrite E. apply in_map. eapply nth_error_In. exact Hj.
+    + eapply IH; eassumption.
+Qed.
+
+Lemma alookup_rows (rows : list (nat * list nat)) t g :
+  alookup (map (fun fr => (fst fr, nth t (snd fr) 0)) rows) g =
+  match find (fun fr => fst fr =? g) rows with Some fr => Some (nth t (snd fr) 0) | None => None end.
+Proof.
+  induction rows as [|[f row] rest IH]; [reflexivity|].
+  cbn [map fst snd find]. rewrite alookup_cons. destruct (f =? g); [reflexivity | exact IH].
+Qed.
+
+Lemma cells_for_map {A} (h : A -> asg) (xs : list A) g (lv : A -> nat) :
+  (forall x, In x xs -> alookup (h x) g = Some (lv x)) ->
+  cells_for (map h xs) g = map (fun x => Some (lv x)) xs.
+Proof.
+  induction xs as [|x t IH]; intros H; [reflexivity|].
+  cbn [map cells_for flat_map]. rewrite (H x (or_introl eq_refl)). cbn [app]. f_equal.
+  apply IH. intros y Hy. apply H. right. exact Hy.
+Qed.
+
+Lemma cells_for_none {A} (h : A -> asg) (xs : list A) g :
+  (forall x, In x xs -> alookup (h x) g = None) -> cells_for (map h xs) g = [].
+Proof.
+  induction xs as [|x t IH]; intros H; [reflexivity|].
+  cbn [map cells_for flat_map]. rewrite (H x (or_introl eq_refl)). cbn [app].
+  apply IH. intros y Hy. apply H. right. exact Hy.
+Qed.
+
+Section F0D.
+Variable fb : flat.
+Hypothesis HF : frag0 fb = true.
+Hypothesis Hq : 0 < f0_q fb.
+
+Local Notation c := (the_crossing fb).
+Local Notation n := (length (fl_design fb)).
+Local Notation q := (f0_q fb).
+Local Notation inst := (f0_instances fb).
+Local Notation ubi := (f0_ubi fb).
+Local Notation en := (f0_enum fb).
+
+(** the unrankers, unwrapped *)
+Definition perm_of (tc : nat) (c0 : Z) : list Z :=
+  match compute_jth_permutation_prefix (Z.of_nat q) (Z.of_nat tc) c0 with Ok p => p | Err _ => [] end.
+Definition combo_of (tc nl : nat) (idx : Z) : list Z :=
+  match compute_jth_combination (Z.of_nat tc) (Z.of_nat nl) idx with Ok p => p | Err _ => [] end.
+
+Lemma perm_of_spec tc c0 : tc <= q -> (0 <= c0 < f0_perms fb tc)%Z ->
+  compute_jth_permutation_prefix (Z.of_nat q) (Z.of_nat tc) c0 = Ok (perm_of tc c0) /\
+  length (perm_of tc c0) = tc /\ injective_below (Z.of_nat q) (perm_of tc c0) /\
+  perm_rank (Z.of_nat q) (perm_of tc c0) = c0.
+Proof.
+  intros Hle Hr. destruct (PermProofs.perm_prefix_bij q tc Hle) as [H1 _].
+  destruct (H1 c0 Hr) as (p & Hp & Hl & Hi & Hk). unfold perm_of. rewrite Hp. auto.
+Qed.
+
+Lemma combo_of_spec tc nl idx : (0 <= idx < Z.of_nat nl ^ Z.of_nat tc)%Z ->
+  compute_jth_combination (Z.of_nat tc) (Z.of_nat nl) idx = Ok (combo_of tc nl idx) /\
+  length (combo_of tc nl idx) = tc /\ Forall (fun d => (0 <= d < Z.of_nat nl)%Z) (combo_of tc nl idx) /\
+  comb_rank (Z.of_nat nl) (combo_of tc nl idx) = idx.
+Proof.
+  intros Hr. destruct nl as [|nl'].
+  - destruct tc as [|tc'].
+    + cbn in Hr. assert (idx = 0%Z) by lia. subst. unfold combo_of. cbn. repeat split; constructor.
+    + rewrite Z.pow_0_l in Hr by lia. lia.
+  - destruct (RadixProofs.comb_bij tc (Z.of_nat (S nl')) ltac:(lia)) as [H1 _].
+    destruct (H1 idx Hr) as (ds & Hc & Hl & Hd & Hk). unfold combo_of. rewrite Hc. auto.
+Qed.
+
+(** * One round *)
+
+Definition comp_ok (tc : nat) (cp : comp) : Prop :=
+  let '(c0, c1, c2) := cp in
+  (0 <= c0 < f0_perms fb tc)%Z /\
+  c1 = zeros (if tc =? q then q else tc) /\
+  Forall2 (fun f idx => (0 <= idx < Z.of_nat (nlevels fb f) ^ Z.of_nat tc)%Z) ubi c2.
+
+(** the independent rows of a round *)
+Definition ind_rows (tc : nat) (c2 : list Z) : list (nat * list nat) :=
+  map (fun fi => (fst fi, map Z.to_nat (combo_of tc (nlevels fb (fst fi)) (snd fi)))) (combine ubi c2).
+
+Definition spec_tv (perm : list Z) (rows : list (nat * list nat)) (t : nat) : asg :=
+  nth (Z.to_nat (nth t perm 0%Z)) inst [] ++ map (fun fr => (fst fr, nth t (snd fr) 0)) rows.
+
+Definition spec_tvs (tc : nat) (cp : comp) : list asg :=
+  let '(c0, _, c2) := cp in
+  map (spec_tv (perm_of tc c0) (ind_rows tc c2)) (seq 0 tc).
+
+
+
+
+
+
+
+
+
 
 Lemma full_round_f0 tc : full_round en (Z.of_nat tc) = (tc =? q).
 Proof.
@@ -255,11 +309,6 @@ Proof.
   intros g Hg Hu. apply ubi_In in Hu. destruct Hu as [_ Hu]. contradiction.
 Qed.
 
-Lemma map_fst_combine {A B} (xs : list A) (ys : list B) : length xs = length ys -> map fst (combine xs ys) = xs.
-Proof.
-  revert ys. induction xs as [|x t IH]; intros [|y ys] H; cbn in *; try discriminate; [reflexivity|].
-  f_equal. apply IH. lia.
-Qed.
 
 Lemma ind_rows_keys tc c2 : length c2 = length ubi -> map fst (ind_rows tc c2) = ubi.
 Proof.
@@ -285,13 +334,6 @@ Qed.
 Definition crossed_level (perm : list Z) (i t : nat) : nat :=
   nth i (nth (Z.to_nat (nth t perm 0%Z)) prod []) 0.
 
-Lemma alookup_rows (rows : list (nat * list nat)) t g :
-  alookup (map (fun fr => (fst fr, nth t (snd fr) 0)) rows) g =
-  match find (fun fr => fst fr =? g) rows with Some fr => Some (nth t (snd fr) 0) | None => None end.
-Proof.
-  induction rows as [|[f row] rest IH]; [reflexivity|].
-  cbn [map fst snd find]. rewrite alookup_cons. destruct (f =? g); [reflexivity | exact IH].
-Qed.
 
 Lemma alookup_spec_tv_crossed tc cp t i g : tc <= q -> comp_ok tc cp -> t < tc ->
   nth_error c i = Some g ->
@@ -310,17 +352,6 @@ Proof.
 Qed.
 
 
-Lemma find_by_key (rows : list (nat * list nat)) j fr :
-  NoDup (map fst rows) -> nth_error rows j = Some fr ->
-  find (fun x => fst x =? fst fr) rows = Some fr.
-Proof.
-  revert j. induction rows as [|[f row] rest IH]; intros j Hnd Hj; [destruct j; discriminate|].
-  cbn [map fst] in Hnd. inversion Hnd; subst. cbn [find fst]. destruct j; cbn in Hj.
-  - inversion Hj; subst. cbn [fst]. rewrite Nat.eqb_refl. reflexivity.
-  - destruct (f =? fst fr) eqn:E.
-    + apply Nat.eqb_eq in E. exfalso. apply H1. rewrite E. apply in_map. eapply nth_error_In. exact Hj.
-    + eapply IH; eassumption.
-Qed.
 
 Definition ind_level (tc : nat) (c2 : list Z) (j t : nat) : nat :=
   Z.to_nat (nth t (combo_of tc (nlevels fb (nth j ubi 0)) (nth j c2 0%Z)) 0%Z).
@@ -358,22 +389,7 @@ Qed.
 (** * Rows of a round *)
 Definition round_row (tc : nat) (cp : comp) (g : nat) : list (option nat) := cells_for (spec_tvs tc cp) g.
 
-Lemma cells_for_map {A} (h : A -> asg) (xs : list A) g (lv : A -> nat) :
-  (forall x, In x xs -> alookup (h x) g = Some (lv x)) ->
-  cells_for (map h xs) g = map (fun x => Some (lv x)) xs.
-Proof.
-  induction xs as [|x t IH]; intros H; [reflexivity|].
-  cbn [map cells_for flat_map]. rewrite (H x (or_introl eq_refl)). cbn [app]. f_equal.
-  apply IH. intros y Hy. apply H. right. exact Hy.
-Qed.
 
-Lemma cells_for_none {A} (h : A -> asg) (xs : list A) g :
-  (forall x, In x xs -> alookup (h x) g = None) -> cells_for (map h xs) g = [].
-Proof.
-  induction xs as [|x t IH]; intros H; [reflexivity|].
-  cbn [map cells_for flat_map]. rewrite (H x (or_introl eq_refl)). cbn [app].
-  apply IH. intros y Hy. apply H. right. exact Hy.
-Qed.
 
 Lemma round_row_crossed tc cp i g : tc <= q -> comp_ok tc cp -> nth_error c i = Some g ->
   round_row tc cp g = map (fun t => Some (crossed_level (perm_of tc (fst (fst cp))) i t)) (seq 0 tc).
